@@ -29,6 +29,10 @@ impl Outcome {
         // prepend by command
         let expression_lines = self.testcase.shell_expression.as_bytes();
         let expression_lines = expression_lines.split_at_newline();
+        if expression_lines.is_empty() {
+            // an empty command, i.e. a `$ ` line with nothing behind it
+            return "$ \n".to_string();
+        }
         let mut generated = format!("$ {}", lossy_string!(&expression_lines[0].assure_newline()));
         expression_lines.iter().skip(1).for_each(|line| {
             generated.push_str(&format!(
